@@ -25,13 +25,15 @@ Trusted assumptions (the only things not derived from the syntax; each rule name
 Normal form (per function body; details at each pass):
   1 docstrings, `pass`, annotations of locals dropped (annotations are never evaluated in a function scope);
   2 module-level constant tuples / aliases inlined; `dict()`/`list()`/`tuple()` -> `{}`/`[]`/`()`;
-  3 `T = a if c else b` / `return a if c else b` -> if/else statements; `T = {k: v for x in it if c}` -> loop;
+  3 a walrus that is the first thing a statement evaluates is split off (`if (x := E) is None` -> `x = E; if x is
+    None`); `T = a if c else b` / `return a if c else b` -> if/else statements; `T = {k: v for x in it if c}` -> loop;
   4 calls of private helpers inlined (parameters bound to fresh locals, result bound to a fresh local);
   5 control shape: statements after an `if` whose branch ends in return/raise/continue/break move into the other
     branch; a return statement common to both branches is hoisted behind the `if`; a bare `return` in tail
     position (`continue` at the end of a loop body) is dropped; `if c: <nothing> else: B` -> `if not c: B`;
     tests are put into a negation normal form (De Morgan, `not a == b` -> `a != b` on builtin operands [A3],
-    `(i & j) == 0` -> `not i & j` [A3], `x == A or x == B` <-> `x in (A, B)` on ints [A3]);
+    `(i & j) == 0` -> `not i & j` [A3], `x == A or x == B` <-> `x in (A, B)` on ints [A3]); an `assert T` whose T
+    is the (STABLE, locals-only) test of an enclosing if / while or of an earlier assert is dropped;
   6 aliases `x = y` and single-use temporaries `x = E` are substituted when nothing that does not commute with E
     is evaluated between the definition and the use and the use is evaluated exactly once, unconditionally;
   7 maximal runs of assignments are put into the lexicographically least order reachable by swapping adjacent
@@ -629,6 +631,32 @@ def p2_constants(cx, body):
     return [tr.visit(s) for s in body]
 
 
+def p2b_walrus(cx, body):
+    """`if (x := E) is None: ...`  ->  `x = E; if x is None: ...`  (also for the value of an assignment / return /
+    expression statement and the iterable of a `for`): only when the walrus is the very first thing the statement
+    evaluates, unconditionally, so that the binding happens at the same point.  Not for `while` (re-evaluated)."""
+    def split(s):
+        if not (isinstance(s, (ast.If, ast.Return, ast.Expr, ast.For))
+                or (isinstance(s, ast.Assign) and len(s.targets) == 1)):
+            return [s]
+        hdr = header_exprs(s)
+        if not hdr:
+            return [s]
+        first = next(eval_order(hdr[0]), None)
+        if first is None:
+            return [s]
+        n, cond = first
+        if not (isinstance(n, ast.NamedExpr) and not cond and isinstance(n.target, ast.Name)):
+            return [s]
+        pre = ast.Assign(targets=[ast.Name(id=n.target.id, ctx=ast.Store())], value=n.value, lineno=0)
+        s2 = _Swap(n, ast.Name(id=n.target.id, ctx=ast.Load())).visit(s)
+        return split(pre) + split(s2)
+
+    def f(stmts):
+        return [x for s in stmts for x in split(s)]
+    return _map_blocks(body, f)
+
+
 def p3_expr_statements(cx, body, fresh):
     # inside a `try` of the same function a half-built dict would be observable by the handler: leave those alone
     guarded = {id(n) for t in walk_block(body) if isinstance(t, ast.Try) for n in walk_block(t.body)}
@@ -770,6 +798,78 @@ def shape(cx, stmts, tail, loop_tail=False):
             s.test, s.body, s.orelse = neg_nf(cx, s.test), s.orelse, []
         out.append(s)
     return out
+
+
+def _stored_names(stmts):
+    out = set()
+    for n in walk_block(stmts):
+        if isinstance(n, ast.Name) and isinstance(n.ctx, (ast.Store, ast.Del)):
+            out.add(n.id)
+        elif isinstance(n, ast.ExceptHandler) and n.name:
+            out.add(n.name)
+        elif isinstance(n, (ast.FunctionDef, ast.AsyncFunctionDef, ast.ClassDef)):
+            out.add(n.name)
+        elif isinstance(n, (ast.Import, ast.ImportFrom)):
+            out.update(a.asname or a.name.split(".")[0] for a in n.names)
+        elif isinstance(n, ast.NamedExpr) and isinstance(n.target, ast.Name):
+            out.add(n.target.id)
+    return out
+
+
+def p5b_asserts(cx, body):
+    """Drop `assert T` where T is known to hold: T (in test normal form) is the test of an enclosing `if` / `while`
+    (or the negation of it, in the else branch) or of an earlier assert, T is STABLE - it depends on nothing but
+    the bindings of locals ([A3] for int / str operands) - and none of these locals is rebound in between."""
+    fi = cx.fi
+
+    def fact(t):
+        names = _names(t)
+        if names and not _has_opaque(t) and cx.eclass(t) == STABLE \
+                and all(fi.is_local(n) and n not in fi.declared and n not in fi.nested_uses for n in names):
+            return ast.dump(t), frozenset(names)
+        return None
+
+    def kill(facts, names):
+        return {k: v for k, v in facts.items() if not (v & names)}
+
+    def add(facts, t):
+        fk = fact(t)
+        if fk:
+            facts[fk[0]] = fk[1]
+
+    def go(stmts, facts):
+        facts, out = dict(facts), []
+        for s in stmts:
+            if isinstance(s, ast.Assert):
+                t = truth(cx, s.test)
+                if ast.dump(t) in facts:
+                    continue
+                out.append(s)
+                add(facts, t)
+                continue
+            if isinstance(s, ast.If):
+                t = truth(cx, s.test)
+                fb, fo = dict(facts), dict(facts)
+                add(fb, t)
+                add(fo, neg_nf(cx, t))
+                s.body, s.orelse = go(s.body, fb), go(s.orelse, fo)
+            elif isinstance(s, (ast.While, ast.For, ast.AsyncFor)):
+                inner = kill(facts, _stored_names([s]))
+                fb = dict(inner)
+                if isinstance(s, ast.While):
+                    add(fb, truth(cx, s.test))
+                s.body, s.orelse = go(s.body, fb), go(s.orelse, inner)
+            elif isinstance(s, (ast.With, ast.AsyncWith)):
+                s.body = go(s.body, kill(facts, _stored_names([s])))
+            elif isinstance(s, ast.Try):
+                inner = kill(facts, _stored_names([s]))
+                s.body, s.orelse, s.finalbody = go(s.body, inner), go(s.orelse, inner), go(s.finalbody, inner)
+                for h in s.handlers:
+                    h.body = go(h.body, inner)
+            facts = kill(facts, _stored_names([s]))
+            out.append(s)
+        return out
+    return go(body, {})
 
 
 # --------------------------------------------------------------------------------------------- pass 4: private helpers
@@ -1269,11 +1369,15 @@ def front(cx, body, fresh, keep, stack):
     cx.fi.fn.body = body
     cx.fi.refresh()
     body = p2_constants(cx, body)
+    body = p2b_walrus(cx, body)
     body = p3_expr_statements(cx, body, fresh)
     cx.fi.fn.body = body
     cx.fi.refresh()
     body = p4_helpers(cx, body, fresh, keep, stack)
     body = shape(cx, body, True)
+    cx.fi.fn.body = body
+    cx.fi.refresh()
+    body = shape(cx, p5b_asserts(cx, body), True)
     cx.fi.fn.body = body
     cx.fi.refresh()
     return body
